@@ -217,6 +217,9 @@ func (g *DirectedGraph) RemoveLine(fid, tid, id int64) {
 		delete(g.to[tid], fid)
 	}
 
+	if g.lineIDs[fid][tid] == nil {
+		return
+	}
 	g.lineIDs[fid][tid].Release(id)
 }
 
